@@ -161,11 +161,13 @@ def run(ctx):
             do(ctx, 'z2inv_corr', ['np', m], nontrivial=('z', str(m)))
             do(ctx, 'z2inv_oracle', ['np', m])
     # LARGE registers: byte, word and cache-line boundaries of every packed or vectorised representation (8, 9, 16, 17, 33, 64, 65 qubits); model correspondence only
-    for n in gen.BIG:
+    for n in gen.BIG + [20, 24, 28]:
         for be in (['np', 'torch'] if n <= 33 else ['np']):
-            a, b = gen.rmap(rng, ctx.model, n), gen.rmap(rng, ctx.model, n)
+            # DENSE maps (4n rotations): elimination kernels accumulate most on them
+            a, b = gen.rmap(rng, ctx.model, n, depth=4 * n), gen.rmap(rng, ctx.model, n)
             do(ctx, 'compose_corr', [be, a, b], nontrivial=('big', be, n))
             do(ctx, 'inverse_corr', [be, a], nontrivial=('bigi', be, n))
+            do(ctx, 'inverse_corr', [be, b], nontrivial=('bigj', be, n))
     for _ in range(int(150 * B)):
         n = rng.randint(4, 9)
         m = [[rng.randint(0, 1) for _ in range(n)] for _ in range(n)]
